@@ -148,6 +148,14 @@ class Interp:
         # after stating a duty we may rely on it further down the path
         self.pc.append(goal)
 
+    def fail(self, name):
+        """A definite run-time error on this path."""
+        if self.spec:
+            raise Unsupported(f"undefined value in a contract expression "
+                              f"({name})")
+        self.oblige(name, False, "safety")
+        raise PathEnd()
+
     def feasible(self, cond):
         """Cheap over-approximate feasibility: quantifier-free part of the
         path condition only; unknown counts as feasible."""
@@ -571,6 +579,22 @@ class Interp:
         spec: {'inv': [...], 'modifies': [...], 'index': 'k' (for-loops),
                'variant': expr (optional)}"""
         tag = f"loop{k}@{st.lineno}"
+        if spec.get("unroll_first"):
+            # generator 'run to the first yield': the first iteration must
+            # leave the function (yield/return/raise) or the loop (break)
+            if iterable is not None:
+                raise Unsupported("unroll_first on a for-loop")
+            if not self.decide(self.eval(st.test, env)):
+                self.exec_block(st.orelse, env)
+                return
+            try:
+                self.exec_block(st.body, env)
+            except BreakEx:
+                return
+            except ContinueEx:
+                pass
+            raise Unsupported(f"{tag}: first iteration falls through "
+                              f"(unroll_first needs yield/return/break)")
         idx_name = spec.get("index", "_k")
         seq = None
         if iterable is not None:
@@ -612,7 +636,8 @@ class Interp:
             try:
                 self.exec_block(st.body, env)
             except BreakEx:
-                self.check_loop_frame(spec, marks, env, tag)
+                # a break path never returns to the loop head, so the loop
+                # frame (used only to havoc at the head) does not bind it
                 return            # continue after the loop with this state
             except ContinueEx:
                 pass
@@ -698,6 +723,8 @@ class Interp:
         return self._havoc_value(v, name)
 
     def _havoc_value(self, v, name):
+        if isinstance(v, Cell):
+            return Cell(v.kind, self._havoc_value(v.read(), name))
         if isinstance(v, bool):
             return self.fresh_const(name, z3.BoolSort())
         if isinstance(v, int):
@@ -837,7 +864,15 @@ class Interp:
     def e_Name(self, node, env):
         n = node.id
         if n in env:
-            return env[n]
+            v = env[n]
+            if isinstance(v, OptVal) and not self.spec:
+                # narrowed by an earlier `is None` test on this path?
+                for f in self.pc[-40:]:
+                    if f.eq(v.present):
+                        return v.value
+                    if z3.is_not(f) and f.arg(0).eq(v.present):
+                        return None
+            return v
         if self.spec and n == "result":
             return self.result
         if self.spec and n in self.V.lib.SPEC_CONSTS:
